@@ -101,13 +101,24 @@ func (e *Env) verifyConfig(cfg *Config) (class, detail string) {
 		if len(kn.Relations) != len(n.Rels) {
 			return "config-rejected", fmt.Sprintf("namespace %s: keto has %d relations, configuration declares %d", n.Name, len(kn.Relations), len(n.Rels))
 		}
+		seen := map[string]int{}
 		for _, r := range n.Rels {
+			// a name may be declared more than once (relation and permission of the
+			// same name): the k-th declaration is compared with keto's k-th
+			want := seen[r.Name]
+			seen[r.Name]++
 			found := false
+			occ := 0
 			for i := range kn.Relations {
 				kr := &kn.Relations[i]
 				if kr.Name != r.Name {
 					continue
 				}
+				if occ != want {
+					occ++
+					continue
+				}
+				occ++
 				found = true
 				if (kr.SubjectSetRewrite != nil) != (r.Rewrite != nil) {
 					return "config-denotation", fmt.Sprintf("%s#%s: rewrite presence differs", n.Name, r.Name)
